@@ -210,7 +210,7 @@ PROPS = {
         "level_text": "Enumeration of the closure points the merge exposes through its write reports, for every generated plan and buffer size.",
         "level_note": "Trusts the reference model; under the vectors tag the fake engine.",
         "stages": [
-            rapid_stage("cancel", "TestC18", 30, 120, tshards=12, qtimeout=600),
+            rapid_stage("cancel", "TestC18", 16, 120, qshards=2, tshards=12, qtimeout=600),
             rapid_stage("cancel-vectors", "TestC18", 12, 60, tags="verif,vectors", tshards=4, qtimeout=600),
         ],
     },
